@@ -42,6 +42,10 @@ var c13labels = []c13lab{
 	/* 19 */ {"local t = {}\nfunction t.dd(...) end\nq = t.dd\n", 1, false, false, "..."},
 	/* 20 */ {"local t = {}\nfunction t.dd(p\x02, q\x03) end\nq = t.dd\n", 1, false, false, "p\x02, q\x03"},
 	/* 21 */ {"local function dd() end\n", 0, true, false, "()"},
+	// a name re-declared from a call / a function that uses the earlier declaration: the inner occurrence is the earlier one
+	/* 22 */ {"local dd = \x01\nlocal function f(p) return p end\nlocal dd = f(dd)\n", 2, true, true, ""},
+	/* 23 */ {"local dd = \x01\nlocal dd = function() return dd end\n", 2, true, true, ""},
+	/* 24 */ {"dd = \x01\nlocal function f(p) return p end\nlocal dd = f(dd)\n", 2, false, true, ""},
 }
 
 func VerifRun_C13d() {
